@@ -54,3 +54,43 @@ Print Assumptions C04_searchparams_mutation_refuted.
 
 Example C04_default_cfg_qualifies : cfg_okm default_cfg = true /\ c_fail default_cfg = false.
 Proof. split; [exact cfg_okm_default|reflexivity]. Qed.
+
+(* ---------- beyond the property's quantifier: the routes that write the query back from the parameter list ----------
+   (Proofs/WriteBackInv.v). SearchParams mutations and the canonicalization profiles serialize the list with the query
+   set for every scheme, so clause 10 fails for an apostrophe in a special URL's query (the refuted statement above).
+   Inv_wb is the record invariant with that one clause read with the set the write-back uses; it is what the harness
+   evaluates on these routes, and it is kept by EVERY operation. *)
+From Verif Require Import Model.Canon Proofs.CanonTotal Proofs.WriteBackInv.
+
+Theorem C04_strong_implies_write_back_invariant : forall c u, q_sub c -> Inv c u -> Inv_wb c u.
+Proof. exact Inv_Inv_wb. Qed.
+Print Assumptions C04_strong_implies_write_back_invariant.
+
+Theorem C04_write_back_keeps_invariant : forall c u l, sp_chars_ok (c_querySet c) = true -> Inv_wb c u -> Inv_wb c (sp_update c u l).
+Proof. exact sp_update_Inv_wb. Qed.
+Print Assumptions C04_write_back_keeps_invariant.
+
+(* every step of a history - setters, resolutions, clones AND search-parameter mutations - keeps it in both slots *)
+Theorem C04_history_step_with_mutations : forall idna_raw, H3 idna_raw -> forall c, cfg_okm c = true -> c_fail c = false -> q_sub c ->
+  forall s o, hinv_wb c s -> (sp_mutation o = true -> sp_chars_ok (c_querySet c) = true) ->
+  hinv_wb c (fst (hstep idna_raw c s o)).
+Proof. exact hstep_Inv_wb. Qed.
+Print Assumptions C04_history_step_with_mutations.
+
+(* what a canonicalization profile returns *)
+Theorem C04_profile_results : forall idna_raw p x u',
+  H3 idna_raw -> cfg_okm (p_cfg p) = true -> c_fail (p_cfg p) = false -> q_sub (p_cfg p) ->
+  sp_chars_ok (c_querySet (p_cfg p)) = true ->
+  ProfileParse idna_raw p x = CUrl u' -> Inv_wb (p_cfg p) u'.
+Proof. exact ProfileParse_Inv_wb. Qed.
+Print Assumptions C04_profile_results.
+
+(* on the observables: all clauses hold except possibly clause 10, and the query is printable ASCII outside the query set *)
+Theorem C04_write_back_observables : forall c u, cfg_ok c = true -> Inv_wb c u ->
+  (inv_obs c (obs_url c u) = [] \/ inv_obs c (obs_url c u) = [10]) /\
+  none_in (c_querySet c) (Query u) = true /\ forallb printable (Query u) = true.
+Proof. exact Inv_wb_inv_obs_strict. Qed.
+Print Assumptions C04_write_back_observables.
+
+Example C04_write_back_premises_met : q_sub default_cfg /\ sp_chars_ok (c_querySet default_cfg) = true.
+Proof. exact (conj q_sub_default (proj1 (proj2 (proj2 (proj2 wb_premises_default))))). Qed.
